@@ -102,6 +102,13 @@ Definition compile_factor (f : nat) (dummy : bool) (col : list T) : option simpl
   | Some (lo, hi) => Some (SFactor f lo hi (count_distinct [] col) dummy)
   | None => None
   end.
+(* SplineTerm.compile as a term constructor: the knots after a history of compiles (see spline_compile in BSpline.v) *)
+Definition compile_spline (f : nat) (user : option (T * T)) (categorical : bool) (n k : nat) (periodic : bool)
+           (by_ : option nat) (cols : list (list T)) : option simple :=
+  match spline_compile_history o user categorical cols with
+  | Some (lo, hi) => Some (SSpline f lo hi n k periodic by_)
+  | None => None
+  end.
 End C.
 Arguments simple : clear implicits.
 Arguments cterm : clear implicits.
